@@ -280,7 +280,7 @@ func (e *Engine) loadPtr(st *State, p VPtr, heap map[string]Term) Value {
 		// otherwise repeat its whole access path at every use. Terms under a quantifier (they
 		// mention a bound variable q!...) cannot be named outside it.
 		for i := range ts {
-			if len(ts[i].S) > loadCompactThreshold && !reBoundVar.MatchString(ts[i].S) {
+			if st.node != nil && len(ts[i].S) > loadCompactThreshold && !reBoundVar.MatchString(ts[i].S) {
 				c := e.sym.Fresh("ld", ts[i].Sort)
 				st.Assume(Eq(c, ts[i]))
 				ts[i] = c
